@@ -15,7 +15,7 @@ CLAIMS = {
          "walkIPRanges terminates (measure over the integers), pool decoding rejects a null nodeSubnets entry, ConfigurePool rejects a null pool, ensureIPAMConf records exactly the applied configuration text. Genuine defects found by these obligations were repaired (fix: commits, known_findings.txt).",
          "JSON layer (encoding/json) and net.ParseIP/IPNet.Contains are assumed (uninterpreted with stated facts; a decoded container may hold nil elements); pool-level round trip through JSON is not claimed. ensureIPAMConf: a rejected text is never recorded as applied, an applied one always is (relative to the proved frame of ConfigurePool)."),
  "C11": ("proof", "Paging arithmetic of pkg/utils/page proved for all page/size/len in the documented ranges (start/end formulae, clamping of ParsePage/ParseSize); crdIpam.ReleaseIPs and the plugin's releaseIP release exactly the (ip,key) pairs that match. "
-         "The key grammar part (injectivity, decode(encode)) is not under contract.", "strconv.Atoi assumed deterministic; sort.Sort not modelled."),
+         "Key construction: the deployment name of a ReplicaSet-owned pod is the ReplicaSet name before its LAST dash (resolveDeploymentName); GetAppTypePrefix/GetAppType are proved against spec functions and a lemma shows that the app type the list API shows for any storable prefix (including NULL_ of owner-less pods) rebuilds that prefix (defect repaired, fix: 9ec65a6). Injectivity of the whole key and ParseKey(FormatKey) are not under contract.", "strconv.Atoi assumed deterministic; sort.Sort not modelled; strings.ToLower/LastIndex/concatenation are uninterpreted with the stated axioms (idempotence of ToLower, prefix of a concatenation, lower-case literals)."),
  "C01": ("proof", "Every table-writing method of crdIpam preserves the table invariant (entries non-nil, filed under their own IP string, pool and its node-subnet set non-nil, allocated/unallocated disjoint, free entries blank) "
          "and has a whole-view postcondition: owner changes only for an IP that was free or whose key equals the key argument; failure leaves tables unchanged. "
          "Methods: Release, ReleaseIPs, UpdateAttr, AllocateSpecificIP, AllocateInSubnet, AllocateInSubnetWithKey, AllocateInSubnetsAndIPRange, ReserveIP, handleFIPAssign/Unassign, ConfigurePool (table construction); "
@@ -33,13 +33,15 @@ CLAIMS = {
  "C05": ("proof", "After every contracted crdIpam operation, on success and on failure, memory and the ghost Store agree on owner, policy, node and uid of every allocated IP and no free IP has an object (synced), relative to the store wrappers with nondeterministic failure (fault budget); multi-IP allocation with at most one failing API call.",
          "Crash points are not enumerated; ConfigurePool's reload-from-store part is only partially under contract."),
  "C06": ("proof", "Bind side: AllocateInSubnet hands out only an IP that was free and whose pool lists the node subnet, and returns ErrNoEnoughIP only if no free IP's pool lists it; toFloatingIPInfo copies mask, gateway, VLAN and node subnets of the entry's pool. "
-         "Filter side: NodeSubnetsByIPRanges offers only subnets that can serve EVERY requested range list from a free IP (defect repaired, fix: c107243); getAvailableSubnet; getSubnet: every offered subnet reaches, for each requested range list in which the pod already holds an IP, an IP it holds there (defect repaired, fix: d0db67a).",
+         "Filter side: NodeSubnetsByIPRanges offers only subnets that can serve EVERY requested range list from a free IP (defect repaired, fix: c107243); getAvailableSubnet; getSubnet: every offered subnet reaches, for each requested range list in which the pod already holds an IP, an IP it holds there (defect repaired, fix: d0db67a). Bind: every entry of the annotation allocateIP returns names an IP allocated under the pod's key and carries the mask, gateway and VLAN of that IP's pool.",
          "Filter(): the per-node loop (node subnet lookup) and the agreement filter->bind across two calls are not under contract; completeness ('exactly those') is proved only inside ByKeyAndIPRanges/AllocateInSubnet, not for getSubnet. FormatKey/getPodCniArgs/getDpReplicas are assumed (named uninterpreted results)."),
- "C08": ("proof", "AllocateInSubnetsAndIPRange proved against the property statement for every list of well-formed requested ranges and every table state: on success exactly one IP per range, the i-th inside the i-th range, free and routable from the node subnet before the call, pairwise distinct, in request order, published under the key, every other entry untouched; on any failure the tables are unchanged and, with at most one failing API call, the store is unchanged (rollback loop invariant). ByKeyAndIPRanges: one slot per range list, the reported IP lies in its own range list, and a slot is nil only if the key holds nothing in that list; getSubnet restricts the offer by every held IP.",
-         "Client (API server) behaviour assumed as in pkg/ipam/client/.../zz_contracts_verif.go; net.IP.String modelled by uninterpreted functions with the stated axioms. Plugin-level allocateIP (annotation order) not under contract."),
+ "C08": ("proof", "AllocateInSubnetsAndIPRange proved against the property statement for every list of well-formed requested ranges and every table state: on success exactly one IP per range, the i-th inside the i-th range, free and routable from the node subnet before the call, pairwise distinct, in request order, published under the key, every other entry untouched; on any failure the tables are unchanged and, with at most one failing API call, the store is unchanged (rollback loop invariant). ByKeyAndIPRanges: one slot per range list, the reported IP lies in its own range list, and a slot is nil only if the key holds nothing in that list; getSubnet restricts the offer by every held IP; allocateIP (bind) reports exactly one IP per requested range list, the i-th inside the i-th list, in request order (no nil entry), also when part of the lists was already held.",
+         "Client (API server) behaviour assumed as in pkg/ipam/client/.../zz_contracts_verif.go; net.IP.String modelled by uninterpreted functions with the stated axioms; the pod's requested ranges are named by uninterpreted math functions tied to getPodCniArgs' result (assumed). 'None of the k IPs stays allocated on failure' is proved for the IPAM call, not across allocateIP's later provider failures (by design of the code the IPs stay)."),
  "C09": ("proof", "Allocation contracts hand out only entries of the unallocated table; handleFIPAssign moves only a free IP to allocated and refuses an allocated one; ConfigurePool builds disjoint tables whose free entries are blank.", "watch timing not decided."),
  "C19": ("proof", "Lock discipline of the IPAM tables only: for every function of pkg/ipam/floatingip/ipam_crd.go, every read of crdIpam.allocatedFIPs / unallocatedFIPs / FloatingIPs (the field and the map/slice contents) happens with cacheLock held in some mode and every write with the write lock held, or on an object allocated by the very call (constructor). 162 lock obligations, all discharged. A race of ConfigurePool's deferred log was found (race detector replay) and repaired (fix: 28f1946).",
          "This is NOT race freedom of the process: only the three declared guarded fields of one file are covered; the other anchored files (plugin caches, crdkey, crdcache, cniutil, galaxy server, portmapping, policy) are not swept; publication of objects, goroutine creation and the happens-before of channels are not modelled; helper functions called under the lock carry the lock as a stated precondition."),
+ "C17": ("proof", "Safety half of the GC property: (*flannelGC).shouldCleanup answers true only if the runtime reports the container gone (docker: not-found error; containerd: gRPC NotFound) or exited/dead (docker) or its sandbox not ready (containerd), and never on any other inspect error; removeLeakyStateFile/removeLeakyIPFile remove exactly the named file; one cleanupGCDirs pass removes a state file / cleans a port mapping only for an entry name that shouldCleanup approved in that pass (ghost sets Removed and PortsCleaned against the runtime oracle). All inputs: any directory listing, any mix of container states, any inspect error.",
+         "The runtime is an ASSUMED oracle (pkg/api/docker/zz_contracts_verif.go: an answer reflects ghost truth, not-found is reported by the dedicated error); os.Remove/ReadDir/filepath are assumed (names are strings, Base(Join(d,n)) == n). cleanupIP (owner read from the file content), cleanupVeth (netlink) and the liveness half ('everything is removed within a bounded number of rounds') are NOT claimed; the containerd branch's pod lookup is proved only up to 'sandbox not ready'."),
  "C18": ("proof", "Zero-annotation safety sweep (plus surface invariants as typeinv/requires): for every function of the listed files (pkg/utils/nets/ip.go, pkg/ipam/floatingip/{floatingip.go,ipam_crd.go}, pkg/utils/page/page.go, pkg/ipam/schedulerplugin/util/utils.go, pkg/api/k8s/k8s.go) that is inside the supported subset, every generated no-panic obligation is discharged for all inputs satisfying the stated surface invariant: nil dereference, index/slice bounds, nil-map write, failed type assertion, division by zero, explicit panic, signed 64-bit overflow, callee preconditions, and termination of loops that carry a measure. "
          "A decoder crash on a null nodeSubnets entry was found and repaired (fix: fed78c1).",
          "All 94 functions of these files are inside the subset at this commit (a function that leaves it is listed as UNDECIDED in the run output and under coverage.undecided_functions). Channel sends are treated as no-ops (blocking is not modelled); encoding/json decoding into a local yields an arbitrary well-formed value (containers may hold nil). C18 relies on range postconditions proved by C11/C20 clauses (tagged for both). Other surfaces named by the property (HTTP handlers, CNI request parsing, policy sync) are not swept. Library callees are assumed not to panic on arguments satisfying their stated requires."),
